@@ -1,4 +1,4 @@
-(* RefutedC20.v — regression evidence for C20: the mechanisms of cassis/util.py before the repairs 218ccba and bb0740a,
+(* RefutedC20.v — regression evidence for C20: the mechanisms of cassis/util.py before the repairs 218ccba, bb0740a and 23e9ca1,
    with machine-checked witnesses that they violate the property. *)
 From Cassis Require Import Base Heap Schema Reach Comparable.
 Open Scope Z_scope.
@@ -72,6 +72,56 @@ Qed.
 Example cyclic_array_new :
   render_val 3 self_array [(Some 5, "FSArray")] [] (VRef 1%N) = Ok (PList [PStr "FSArray"]).
 Proof. vm_compute. reflexivity. Qed.
+
+(* ---- _render_feature_value between bb0740a and 23e9ca1: an array nested in an array is expanded in place unless it is
+   being rendered further up; a chain of arrays each holding the next one twice is rendered 2^n times ---- *)
+Fixpoint render_val_mid (fuel : nat) (h : heap) (d : adict) (active : list oid) (v : val) : res pv :=
+  match fuel with
+  | O => OutOfFuel
+  | S k =>
+    match v with
+    | VNone => Ok (PStr NULL)
+    | VInt z => Ok (PInt z)
+    | VFlt x => Ok (PFlt x)
+    | VBool b => Ok (PBool b)
+    | VStr s => Ok (PStr s)
+    | VList l => do r <- mapM (render_val_mid k h d active) l ;; Ok (PList r)
+    | VRef o =>
+      match hget h o with
+      | None => Err EAttribute
+      | Some f =>
+        if is_array_name (o_type f) then
+          if memN o active then Ok (anchor_pv (dget (o_id f) d))
+          else match slot f "elements" with
+               | VList l => do r <- mapM (render_val_mid k h d (o :: active)) l ;; Ok (PList r)
+               | VNone => Ok PNone
+               | _ => Err EAttribute
+               end
+        else Ok (anchor_pv (dget (o_id f) d))
+      end
+    | VSofa _ => Err EAttribute
+    end
+  end.
+Fixpoint pv_leaves (p : pv) : N :=
+  match p with PList l => fold_right (fun q acc => (pv_leaves q + acc)%N) 0%N l | _ => 1%N end.
+Definition leaves (r : res pv) : option N := match r with Ok p => Some (pv_leaves p) | _ => None end.
+(* arrays i, i+1, ..., i+n: each holds the next one twice, the last one holds one integer; all of them are listed *)
+Fixpoint chain (n : nat) (i : N) : heap :=
+  match n with
+  | O => [(i, mkFs "uima.cas.FSArray" (Some (Z.of_N i)) [("elements", VList [VInt 0])])]
+  | S m => (i, mkFs "uima.cas.FSArray" (Some (Z.of_N i)) [("elements", VList [VRef (i + 1)%N; VRef (i + 1)%N])])
+           :: chain m (i + 1)%N
+  end.
+Definition chain_dict (h : heap) : adict := map (fun p => (o_id (snd p), "FSArray")) h.
+Definition chain_cell_mid (n : nat) : option N :=
+  leaves (render_val_mid (S (S (List.length (chain n 1)))) (chain n 1) (chain_dict (chain n 1)) [] (VRef 1%N)).
+Definition chain_cell_new (n : nat) : option N :=
+  leaves (render_val (S (S (List.length (chain n 1)))) (chain n 1) (chain_dict (chain n 1)) [] (VRef 1%N)).
+(* the cell of a feature holding the first array: 2^n leaves before 23e9ca1, two anchors after it *)
+Theorem nested_array_expansion_old_refuted :
+  chain_cell_mid 4 = Some 16%N /\ chain_cell_mid 8 = Some 256%N /\ chain_cell_mid 12 = Some 4096%N /\
+  chain_cell_new 4 = Some 2%N /\ chain_cell_new 8 = Some 2%N /\ chain_cell_new 12 = Some 2%N.
+Proof. vm_compute. repeat split; reflexivity. Qed.
 
 (* ---- open findings: the property as written, without the side premises of the sensitivity theorems, is false of the
    CURRENT mechanism (known_findings.json: null_sentinel_string, view_of_sofaless_fs) ---- *)
